@@ -131,7 +131,7 @@ theorem ipa_trim_interoperate (pp : IPA.UParams F) (s1 s2 : Nat) (ck1 vk1 ck2 vk
   rw [List.take_take, Nat.min_eq_left hle]
 
 /-- **The key supports exactly what it reports**: a polynomial of degree `≤ supported_degree()` is
-admitted by `commit`/`open`, one of degree `supported_degree() + 1` (or more) is refused with
+accepted by `commit`/`open`, one of degree `supported_degree() + 1` (or more) is refused with
 `TooManyCoefficients`. -/
 theorem ipa_commit_boundary (ck : IPA.CK F) (p : List F) :
     (pdeg p ≤ IPA.supportedDegree ck → IPA.checkDegreesAndBounds (IPA.supportedDegree ck) p none = .ok ()) ∧
